@@ -3,6 +3,7 @@
 package grpcutil
 
 import (
+	"encoding/base64"
 	"bytes"
 	"context"
 	"fmt"
@@ -131,16 +132,28 @@ func vfRandHeaders(r *verifkit.Rand) ([]*conformancev1.Header, map[string][]stri
 	for k := r.Intn(6); k > 0; k-- {
 		bin := r.Chance(1, 3)
 		h := &conformancev1.Header{Name: verifkit.HeaderName(r, bin)}
+		var canon []string // -bin values in the one encoding the conversions produce (unpadded)
 		for v := 1 + r.Intn(3); v > 0; v-- {
 			if bin {
-				h.Value = append(h.Value, verifkit.RawB64(r.Bytes(r.Intn(9))))
+				raw := r.Bytes(r.Intn(9))
+				canon = append(canon, verifkit.RawB64(raw))
+				if r.Chance(1, 4) {
+					// peers may send padded base64 (the gRPC spec: "implementations MUST accept padded and un-padded values")
+					h.Value = append(h.Value, base64.StdEncoding.EncodeToString(raw))
+				} else {
+					h.Value = append(h.Value, verifkit.RawB64(raw))
+				}
 			} else {
 				h.Value = append(h.Value, verifkit.Pick(r, []string{"a", "B", "c d", "e,f", "", "Zz", "aGVsbG8"}))
 			}
 		}
 		hs = append(hs, h)
 		k := strings.ToLower(h.Name)
-		want[k] = append(want[k], h.Value...)
+		if bin {
+			want[k] = append(want[k], canon...)
+		} else {
+			want[k] = append(want[k], h.Value...)
+		}
 	}
 	return hs, want
 }
@@ -181,7 +194,7 @@ func vfShapeOfHeaders(hs []*conformancev1.Header) string {
 }
 
 func TestVerifC18Metadata(t *testing.T) {
-	rep := verifkit.Begin("C18", "metadata", "random header lists (0-5 entries, mixed-case names, repeated names in different case, -bin names with unpadded base64 values, 1-3 values) through (a) header list -> metadata.MD -> header list, (b) the client path AppendToOutgoingContext -> FromOutgoingContext -> header list, (c) repeated conversion of the same MD; distinct = header lists")
+	rep := verifkit.Begin("C18", "metadata", "random header lists (0-5 entries, mixed-case names, repeated names in different case, -bin names with unpadded and (1 in 4) padded base64 values - compared as the decoded bytes / their unpadded encoding, 1-3 values) through (a) header list -> metadata.MD -> header list, (b) the client path AppendToOutgoingContext -> FromOutgoingContext -> header list, (c) repeated conversion of the same MD; distinct = header lists")
 	defer rep.Write()
 	rng := verifkit.Stream("c18md")
 	n := verifkit.Scale(20000, 1600000)
